@@ -224,7 +224,7 @@ func c07H3Gen(s *verifh.Session) (c07H3Script, []string) {
 			body = c07Gzip(body)
 		case 1:
 			g := c07Gzip(body)
-			body = g[:r.Intn(len(g))]
+			body = g[:c07Intn(r, len(g))]
 		}
 	}
 	switch r.Intn(4) {
@@ -331,7 +331,7 @@ func c07H3Gen(s *verifh.Session) (c07H3Script, []string) {
 	midNoise()
 	rest := body
 	for len(rest) > 0 {
-		n := 1 + r.Intn(len(rest))
+		n := 1 + c07Intn(r, len(rest))
 		out.Write(c07H3Frame(0x0, rest[:n]))
 		rest = rest[n:]
 		midNoise()
@@ -354,12 +354,12 @@ func c07H3Gen(s *verifh.Session) (c07H3Script, []string) {
 	res := out.Bytes()
 	if r.Intn(6) == 0 && len(res) > 0 {
 		for k := 1 + r.Intn(3); k > 0; k-- {
-			res[r.Intn(len(res))] = byte(r.Intn(256))
+			res[c07Intn(r, len(res))] = byte(r.Intn(256))
 		}
 		tag("mutated")
 	}
 	if r.Intn(8) == 0 && len(res) > 0 {
-		res = res[:r.Intn(len(res))]
+		res = res[:c07Intn(r, len(res))]
 		tag("cut")
 	}
 	sc.response = res
@@ -433,8 +433,10 @@ func TestVerif_C07_h3hostile(t *testing.T) {
 	wedges := 0
 	n := verifh.N(250, 8000)
 	for i := 0; i < n; i++ {
-		sc, tags := c07H3Gen(s)
-		oi := s.Rand().Intn(len(opts))
+		var sc c07H3Script
+		var tags []string
+		c07Gen(t, "h3hostile exchange", func() { sc, tags = c07H3Gen(s) })
+		oi := c07Intn(s.Rand(), len(opts))
 		path := "/" + strconv.Itoa(i)
 		peer.set(path, sc)
 		fresh := s.Rand().Intn(3) == 0
